@@ -172,7 +172,9 @@ def write_vcf_block(contig, start, stop, reference_path, bam_paths, maf, mad, in
         allele_freq = allele_depth / allele_depth.sum(axis=-1, keepdims=True)
     keep = ((allele_freq >= ind_maf) & (allele_depth >= ind_mad)).sum(axis=1) >= min_ind
     if maf > 0.0:
-        keep &= np.mean(allele_freq, axis=1) >= maf
+        with warnings.catch_warnings():
+            warnings.simplefilter('ignore', category=RuntimeWarning)
+            keep &= np.nanmean(allele_freq, axis=1) >= maf
     if mad > 0:
         keep &= np.sum(allele_depth, axis=1) >= mad
     idx = keep.sum(axis=-1) > 1
